@@ -109,6 +109,55 @@ Theorem self_require_is_loop_error : forall s n0 r f,
 Proof. exact self_require_is_loop_error_lemma. Qed.
 Print Assumptions self_require_is_loop_error.
 
+(* the loader of n reaches `require n` on any thread of the state (t = TCo: inside coroutine.wrap /
+   coroutine.resume / a host NewThread): still the loop error; `links` above likewise allows every
+   link of a longer cycle to cross a coroutine boundary *)
+Theorem loop_error_across_coroutines : forall t f s n o k rest,
+  truthy (loaded s n) = false -> search loLoaders s n [] = inr (o, k, Require t n :: rest) ->
+  exists s', require (S (S f)) s n = (s', Err (ELoop n)) /\ loaded s' n = VSent.
+Proof. exact loop_across_coroutine_lemma. Qed.
+Print Assumptions loop_error_across_coroutines.
+
+(* moving every nested require of every installed loader to the loader's own thread changes neither
+   the result nor the resulting state: package.loaded, the sentinel, package.preload belong to the
+   Lua state, not to a thread *)
+Theorem coroutine_boundary_is_transparent : forall f s n,
+  require f (strip_state s) n = (strip_state (fst (require f s n)), snd (require f s n)).
+Proof. exact require_thread_transparent_lemma. Qed.
+Print Assumptions coroutine_boundary_is_transparent.
+
+(* ---- a script assigns a new table to package.preload ---- *)
+(* a registration made afterwards (PreloadModule or package.preload[n]=f) is what require runs,
+   whatever the new table kept and whatever files exist *)
+Theorem preload_after_rebind : forall fuel f s keep n l,
+  truthy (loaded s n) = false ->
+  let s1 := fst (run fuel s [HNewPreload keep; HSetPreload n (Some l)]) in
+  preload s1 n = Some l /\
+  forall s' r, require (S f) s1 n = (s', r) -> exists l', log s' = l' ++ (n, OPre) :: log s.
+Proof. exact preload_after_rebind_lemma. Qed.
+Print Assumptions preload_after_rebind.
+
+(* entries not copied into the new table are gone (the path search decides), copied ones still win,
+   and nothing that is cached is lost *)
+Theorem rebind_drops_unkept : forall s keep n,
+  memz n keep = false ->
+  preload (new_preload s keep) n = None /\
+  loLoaderPreload (new_preload s keep) n = SMsg [TPre n] /\
+  loLoaderLua (new_preload s keep) n = loLoaderLua s n.
+Proof. exact new_preload_dropped. Qed.
+Print Assumptions rebind_drops_unkept.
+
+Theorem rebind_keeps_kept : forall s keep n,
+  memz n keep = true -> loLoaderPreload (new_preload s keep) n = loLoaderPreload s n.
+Proof. exact new_preload_kept. Qed.
+Print Assumptions rebind_keeps_kept.
+
+Theorem rebind_keeps_cache : forall f s keep n,
+  truthy (loaded s n) = true -> is_sent (loaded s n) = false ->
+  require (S f) (new_preload s keep) n = (new_preload s keep, Ok (loaded s n)).
+Proof. exact rebind_keeps_cache_lemma. Qed.
+Print Assumptions rebind_keeps_cache.
+
 (* ---- missing modules ---- *)
 Theorem missing_lists_tried : forall f s n,
   truthy (loaded s n) = false -> preload s n = None ->
